@@ -29,17 +29,17 @@ def showRat (r : Rat) : String := s!"{r.num}/{r.den}"
 
 def showRats (l : List Rat) : String := if l.isEmpty then "-" else ",".intercalate (l.map showRat)
 
-/-- number of lags at which the correlation takes its maximal value `c` (more than one: the first one is the model's
-answer, the floating-point correlation of the code may prefer another) -/
-def tiesAt (tsa tsb : List Rat) (tbin : Rat) (c : Nat) : Nat :=
-  match listMin (tsa ++ tsb) with
-  | none => 0
-  | some tmin =>
-    ((rle ((diffs (occupied tmin tbin tsa) (occupied tmin tbin tsb)).mergeSort fun a b => decide (a ≤ b))).filter
-      fun p => p.2 = c).length
+/-- does the binning over the rationals (the one the theorems are about) put every event where the double-precision
+binning does? -/
+def ratBinsAgree (tsa tsb : List Rat) (tbin : Rat) : Bool :=
+  match listMin (tsa ++ tsb), listMax (tsa ++ tsb) with
+  | some tmin, some tmax =>
+    nbins tmin tmax tbin == nbinsF (toF tmin) (toF tmax) (toF tbin) &&
+      (tsa ++ tsb).all fun t => binIndex tmin tbin t == binIndexF (toF tmin) (toF tbin) (toF t)
+  | _, _ => true
 
 def showCoarse (tsa tsb : List Rat) (tbin : Rat) (c : Coarse) : String :=
-  s!"n={c.n} lag={c.lag} v={c.v0},{c.v1},{c.v2} ties={tiesAt tsa tsb tbin c.v1} delta={showRat c.delta}"
+  s!"n={c.n} lag={c.lag} v={c.v0},{c.v1},{c.v2} ties={c.ties} ratbins={if ratBinsAgree tsa tsb tbin then 1 else 0} delta={showRat c.delta}"
 
 def step (t : List String) : String :=
   match t with
@@ -48,7 +48,7 @@ def step (t : List String) : String :=
     | some K, some tb =>
       match ratList? K a, ratList? K b with
       | some tsa, some tsb =>
-        match coarse tsa tsb (ratOf K tb) with
+        match coarseF tsa tsb (ratOf K tb) with
         | none => "err ValueError"
         | some c => "ok " ++ showCoarse tsa tsb (ratOf K tb) c
       | _, _ => "bad-op"
@@ -58,7 +58,7 @@ def step (t : List String) : String :=
     | some K, some tb, some lin =>
       match ratList? K a, ratList? K b, ratList? K q with
       | some tsa, some tsb, some qs =>
-        match syncClosed tsa tsb (ratOf K tb) (lin != 0) with
+        match syncClosedF tsa tsb (ratOf K tb) (lin != 0) with
         | .errValueError => "err ValueError"
         | .undetermined => "undetermined"
         | .ok ps drift nodes c =>
